@@ -43,6 +43,18 @@ def check(tier, seed):
                 if n > 255:
                     cases.append({'line': f"verify {s} {mode} bytes:{pk.hex()} {hx(msg)} {hx(ctx)} {sig.hex()}", 'tag': 'verify long ctx, signature over wrapped length byte',
                                   'want': 'false', 'model': n in (256, 257, 512)})
+                    # a signature made honestly for the 255-byte prefix: an implementation that truncates instead of rejecting accepts it
+                    pre = ctx[:255]
+                    mq = bytes([0 if mode in ('pure', 'internal') else 1, 255]) + pre
+                    if mode == 'pure':
+                        sigp = R.sign_internal(p, sk, mq + msg, bytes(32))
+                    elif mode == 'internal':
+                        sigp = None
+                    else:
+                        sigp = R.sign_internal(p, sk, mq + R.OIDS[mode] + R.prehash(mode, msg), bytes(32))
+                    if sigp is not None:
+                        cases.append({'line': f"verify {s} {mode} bytes:{pk.hex()} {hx(msg)} {hx(ctx)} {sigp.hex()}", 'tag': 'verify long ctx, signature over the 255-byte prefix',
+                                      'want': 'false', 'model': n in (256, 257)})
                     if mode == 'pure' and n in (256, 257, 512):
                         # the aliased short context: legitimately a signature for a *different* (ctx, message) pair
                         short = ctx[:n % 256]
